@@ -162,6 +162,19 @@ for _k in RC_KEYS:
     setattr(HarnessRcEvaluator, f"evaluate_{_k}", _make_rc_method(_k, _k in RC_SYNC_KEYS))
 
 
+def _decoy(name):
+    def helper(self, *args, **kwargs):  # pylint:disable=unused-argument
+        raise AssertionError(f"harness: the helper method {name} is no evaluation method and must never be dispatched to")
+
+    helper.__name__ = name
+    return helper
+
+
+# user classes do have helpers like these; only methods named exactly evaluate_<digits> are evaluation methods
+for _name in ("evaluate_1_strict", "evaluate_2_or_3", "evaluate_499_legacy", "evaluate_2000x", "pre_evaluate_3", "evaluate_all"):
+    setattr(HarnessRcEvaluator, _name, _decoy(_name))
+
+
 class HarnessFcEvaluator(FcEvaluator):
     """931-935 are inherited (shipped implementations)"""
 
@@ -202,6 +215,8 @@ def _make_fc_method(key: str, is_sync: bool):
 
 for _k in FC_KEYS:
     setattr(HarnessFcEvaluator, f"evaluate_{_k}", _make_fc_method(_k, _k in FC_SYNC_KEYS))
+for _name in ("evaluate_901_strict", "evaluate_902_or_903", "evaluate_999b", "re_evaluate_904"):
+    setattr(HarnessFcEvaluator, _name, _decoy(_name))
 
 
 class HarnessHintsProvider(HintsProvider):
